@@ -150,6 +150,27 @@ def generate(rng):
     return scn
 
 
+def enumerate_scenarios(tier, seed):
+    """Data placed at every microsecond offset around the deadline (-40..+40 us): the tie window between
+    'the last read returns' and 'the deadline check' is swept completely for each transport and entry point."""
+    out = []
+    span = 40 if tier == 'quick' else 120
+    for tr in ('pty', 'fd', 'sock', 'popen'):
+        for entry in ('expect', 'expect_exact', 'rnb'):
+            for cost in ([3], [1, 20, 5]):
+                for off in range(-span, span + 1):
+                    T = 0.01
+                    scn = {'family': 'deadline', 'transport': tr, 'entry': entry, 'costs': cost, 'T': T, 'timeout': 1.0,
+                           'maxread': 2000, 'size': 100, 'peer_kind': 'burst',
+                           'peer': [{'op': 'w', 'd': TOKEN, 'dt': int(T * 1e6) + off}, {'op': 'pause'}],
+                           'vt_cap_s': 1000, 'step_cap': 100000, 'enum': ['tie', off]}
+                    if tr == 'popen':
+                        scn['delayafterread'] = 0.0005
+                        scn['sched'] = [0, 1, 1]
+                    out.append(scn)
+    return out
+
+
 def _ops(scn):
     ops = []
     if scn.get('pending'):
